@@ -49,6 +49,17 @@ def _normalize_title_quotes(title: str) -> str:
     return f'"{escaped}"'
 
 
+def _autolink_text(element: Any) -> str:
+    """
+    The text of an autolink exactly as written (its only child is the raw text; no CJK
+    spacing or other text processing applies inside a URL).
+    """
+    children = element.children
+    if isinstance(children, list) and all(isinstance(c.children, str) for c in children):
+        return "".join(c.children for c in children)
+    return element.dest
+
+
 def _link_destination(dest: str) -> str:
     """
     A destination that is empty, contains whitespace or has unbalanced parentheses is only
@@ -623,7 +634,8 @@ class MarkdownNormalizer(Renderer):
         return f"[{link_text}]({_link_destination(element.dest)}{title})"
 
     def render_auto_link(self, element: inline.AutoLink) -> str:
-        return f"<{element.dest}>"
+        # The text as written: for <foo@bar.com> the parsed destination is mailto:foo@bar.com.
+        return f"<{_autolink_text(element)}>"
 
     def render_image(self, element: inline.Image) -> str:
         template = "![{}]({}{})"
@@ -793,8 +805,12 @@ class MarkdownNormalizer(Renderer):
         return self.render_children(element).replace("|", "\\|")
 
     def render_url(self, element: gfm_elements.Url) -> str:
-        """For GFM autolink URLs, just output the URL directly."""
-        return element.dest
+        """
+        For GFM autolink URLs, output the text as written. The parsed destination has a
+        scheme added for `www.` links and e-mail addresses (`http://`, `mailto:`) that is
+        not part of the text.
+        """
+        return _autolink_text(element)
 
     def render_alert(
         self,
